@@ -457,6 +457,9 @@ class ExprMixin:
         base = self.ev(node.value, st)
         if isinstance(node.slice, ast.Slice):
             return self.slice_list(base, node.slice, st, node)
+        if base.ty.kind == "Opt" and base.ty.t.kind in ("Tuple", "Record"):
+            self.oblige("safe", "none-subscript", z3.Not(self.opt_is_none(base)), st, node)
+            base = self.opt_val(base)
         if base.ty.kind == "Record":
             idx = node.slice
             if isinstance(idx, ast.Constant) and idx.value in base.ty.names:
